@@ -221,7 +221,11 @@ pub fn reference_fold(log: &[(SEv, SSpan)], early_parse: bool) -> Result<Vec<RN>
     for (e, _) in log {
         match e {
             SEv::StreamStart | SEv::StreamEnd | SEv::Nothing => {}
-            SEv::DocStart(_) => in_doc = true,
+            SEv::DocStart(_) => {
+                // an anchor belongs to the document that defines it
+                anchors.clear();
+                in_doc = true;
+            }
             SEv::DocEnd => {
                 if !stack.is_empty() {
                     return Err("DocumentEnd with open collections".into());
